@@ -6,48 +6,105 @@ import (
 	"io"
 	"os"
 	"os/exec"
+	"strconv"
 	"strings"
 	"time"
 )
 
+// Solver drives one incremental SMT solver process (z3 -in by default). Its assertion stack mirrors the
+// path condition of the state being explored: one push level per path-condition term.
 type Solver struct {
-	stack []*Term
-	cmd   *exec.Cmd
-	in    io.WriteCloser
-	out   *bufio.Reader
-	pr    *Printer
-	Q     int
-	Sat   int
-	Unsat int
-	Unk   int
-	T     time.Duration
+	bin     string
+	args    []string
+	stack   []*Term
+	cmd     *exec.Cmd
+	in      io.WriteCloser
+	out     *bufio.Reader
+	pr      *Printer
+	timeout int // ms per query
+	Q       int
+	Sat     int
+	Unsat   int
+	Unk     int
+	Errs    int
+	T       time.Duration
+	defs    int
+	log     *os.File
 }
 
-func NewSolver(bin string, args ...string) *Solver {
-	cmd := exec.Command(bin, args...)
+func NewSolver(timeoutMs int, bin string, args ...string) *Solver {
+	s := &Solver{bin: bin, args: args, timeout: timeoutMs}
+	if lf := os.Getenv("SMTLOG"); lf != "" {
+		s.log, _ = os.OpenFile(lf, os.O_APPEND|os.O_CREATE|os.O_WRONLY, 0644)
+	}
+	s.start()
+	return s
+}
+
+func (s *Solver) start() {
+	cmd := exec.Command(s.bin, s.args...)
 	in, _ := cmd.StdinPipe()
 	out, _ := cmd.StdoutPipe()
 	cmd.Stderr = cmd.Stdout
 	if err := cmd.Start(); err != nil {
 		panic(err)
 	}
-	s := &Solver{cmd: cmd, in: in, out: bufio.NewReader(out)}
+	s.cmd, s.in, s.out = cmd, in, bufio.NewReaderSize(out, 1<<16)
 	s.pr = &Printer{defined: map[int]bool{}, out: &strings.Builder{}}
-	io.WriteString(in, "(set-option :print-success false)\n(set-option :global-declarations true)\n")
-	return s
+	s.stack = nil
+	s.defs = 0
+	hdr := "(set-option :print-success false)\n(set-option :global-declarations true)\n"
+	if strings.Contains(s.bin, "z3") && s.timeout > 0 {
+		hdr += fmt.Sprintf("(set-option :timeout %d)\n", s.timeout)
+	}
+	s.send(hdr)
 }
 
-// Check returns "sat"/"unsat"/"unknown" for conjunction pc ∧ extra (extra optional), incremental:
-// the solver's assertion stack mirrors pc (one push level per term).
-func (s *Solver) Check(conj []*Term, wantModel []*Term) (string, map[string]string) {
+func (s *Solver) send(t string) {
+	io.WriteString(s.in, t)
+	if s.log != nil {
+		s.log.WriteString(t)
+	}
+}
+
+func (s *Solver) Close() {
+	if s.cmd == nil {
+		return
+	}
+	s.in.Close()
+	done := make(chan struct{})
+	go func() { s.cmd.Wait(); close(done) }()
+	select {
+	case <-done:
+	case <-time.After(2 * time.Second):
+		s.cmd.Process.Kill()
+		<-done
+	}
+	s.cmd = nil
+}
+
+func (s *Solver) restart() {
+	s.Close()
+	s.start()
+}
+
+// Check returns "sat"/"unsat"/"unknown" for the conjunction conj[:n-1] (the path condition, kept on the
+// incremental stack) ∧ conj[n-1] (asserted in a throw-away frame). With wantModel it returns the values
+// of the given variables.
+func (s *Solver) Check(conj []*Term, wantModel []*Term) (string, map[string]uint64) {
 	t0 := time.Now()
+	if s.defs > 60000 {
+		s.restart()
+	}
 	pc := conj
 	var extra *Term
 	if len(conj) > 0 {
 		pc = conj[:len(conj)-1]
 		extra = conj[len(conj)-1]
 	}
-	// common prefix
+	for _, v := range wantModel {
+		s.pr.name(v)
+	}
 	k := 0
 	for k < len(s.stack) && k < len(pc) && s.stack[k] == pc[k] {
 		k++
@@ -67,7 +124,9 @@ func (s *Solver) Check(conj []*Term, wantModel []*Term) (string, map[string]stri
 	if extra != nil {
 		en = s.pr.name(extra)
 	}
-	sb.WriteString(s.pr.out.String())
+	defs := s.pr.out.String()
+	s.defs += strings.Count(defs, "\n")
+	sb.WriteString(defs)
 	s.pr.out.Reset()
 	sb.WriteString(body.String())
 	sb.WriteString("(push 1)\n")
@@ -75,28 +134,27 @@ func (s *Solver) Check(conj []*Term, wantModel []*Term) (string, map[string]stri
 		fmt.Fprintf(&sb, "(assert %s)\n", en)
 	}
 	sb.WriteString("(check-sat)\n")
-	io.WriteString(s.in, sb.String())
-	if lf := os.Getenv("SMTLOG"); lf != "" {
-		f, _ := os.OpenFile(lf, os.O_APPEND|os.O_CREATE|os.O_WRONLY, 0644)
-		f.WriteString(sb.String())
-		f.WriteString("(pop 1)\n")
-		f.Close()
-	}
-	line, _ := s.out.ReadString('\n')
-	res := strings.TrimSpace(line)
-	var model map[string]string
+	s.send(sb.String())
+	gen := s.cmd
+	res := s.readAnswer()
+	var model map[string]uint64
 	if res == "sat" && len(wantModel) > 0 {
-		model = map[string]string{}
+		model = map[string]uint64{}
 		for _, v := range wantModel {
-			if !s.pr.defined[v.id] {
+			if v.IsConst() {
 				continue
 			}
-			fmt.Fprintf(s.in, "(get-value (%s))\n", v.Name)
+			nm := s.pr.name(v)
+			s.send(fmt.Sprintf("(get-value (%s))\n", nm))
 			l, _ := s.out.ReadString('\n')
-			model[v.Name] = strings.TrimSpace(l)
+			if val, ok := parseValue(l); ok {
+				model[nm] = val
+			}
 		}
 	}
-	io.WriteString(s.in, "(pop 1)\n")
+	if s.cmd == gen {
+		s.send("(pop 1)\n")
+	}
 	s.Q++
 	switch res {
 	case "sat":
@@ -105,8 +163,64 @@ func (s *Solver) Check(conj []*Term, wantModel []*Term) (string, map[string]stri
 		s.Unsat++
 	default:
 		s.Unk++
-		fmt.Println("SOLVER SAID:", res)
+		res = "unknown"
 	}
 	s.T += time.Since(t0)
 	return res, model
+}
+
+func (s *Solver) readAnswer() string {
+	for {
+		line, err := s.out.ReadString('\n')
+		if err != nil {
+			s.Errs++
+			s.restart()
+			return "unknown"
+		}
+		l := strings.TrimSpace(line)
+		switch {
+		case l == "sat" || l == "unsat" || l == "unknown" || l == "timeout":
+			return l
+		case strings.HasPrefix(l, "(error"):
+			s.Errs++
+			fmt.Fprintln(os.Stderr, "SOLVER ERROR:", l)
+			s.restart()
+			return "unknown"
+		case l == "":
+			continue
+		default:
+			// unexpected output; treat as inconclusive
+			s.Errs++
+			fmt.Fprintln(os.Stderr, "SOLVER SAID:", l)
+			s.restart()
+			return "unknown"
+		}
+	}
+}
+
+// parseValue parses "((name #x00ff))" / "((name #b1))" / "((name true))" / "((name (_ bv5 8)))".
+func parseValue(l string) (uint64, bool) {
+	l = strings.TrimSpace(l)
+	i := strings.Index(l, " ")
+	if i < 0 {
+		return 0, false
+	}
+	v := strings.TrimSpace(strings.TrimSuffix(l[i+1:], "))"))
+	switch {
+	case v == "true":
+		return 1, true
+	case v == "false":
+		return 0, true
+	case strings.HasPrefix(v, "#x"):
+		u, err := strconv.ParseUint(v[2:], 16, 64)
+		return u, err == nil
+	case strings.HasPrefix(v, "#b"):
+		u, err := strconv.ParseUint(v[2:], 2, 64)
+		return u, err == nil
+	case strings.HasPrefix(v, "(_ bv"):
+		f := strings.Fields(v[5:])
+		u, err := strconv.ParseUint(f[0], 10, 64)
+		return u, err == nil
+	}
+	return 0, false
 }
